@@ -1,3 +1,4 @@
+import Grexv.Lemmas.XStructR
 import Grexv.Lemmas.Trie
 import Grexv.Lemmas.TrieExact
 import Grexv.Lemmas.ExprLang
@@ -292,6 +293,15 @@ theorem printing_preserves_language_repetitions (i cap esc ns ne : Bool) (e : Ex
     ∃ P, Spec.parse (ciPrefix i ++ fmtRegExp (cfgAnch cap esc ns ne) e) = some (⟨i, false⟩, P) ∧
       (Spec.fullMatch i P s = true ↔ ∃ ls, e.lang ls ∧ SpellsA i ls s) :=
   printed_exactAR i cap esc ns ne e hwf s hs
+
+/-- **S8/S9 with counted labels in verbose mode** the verbose text of every such expression (any anchors, with or without capturing groups,
+`-e`, `-i`) is accepted under its `(?x)` / `(?ix)` flag and the compiled pattern matches exactly the strings spelled by a label sequence of
+the expression's language -/
+theorem printing_preserves_language_repetitions_verbose (i cap esc ns ne : Bool) (e : Expr) (hwf : e.WFS) (s : Str)
+    (hs : ∀ c ∈ s, Scalar c) :
+    ∃ P, Spec.parse (fmtRegExp (cfgVerb cap esc i ns ne) e) = some (⟨i, true⟩, P) ∧
+      (Spec.fullMatch i P s = true ↔ ∃ ls, e.lang ls ∧ SpellsA i ls s) :=
+  printed_exact_verboseR i cap esc ns ne e hwf s hs
 
 /-- the expression `Expression::from` returns for an acyclic automaton with plain labels is well-formed -/
 theorem elimination_result_wellformed (cap esc : Bool) (d : Dfa) (hd : LabelsBs d) (hdfs : DfsOK d d.dfs)
